@@ -212,6 +212,8 @@ void vprop_case (VChoices *c, VResult *r)
   c14_check_text (out);
   /* a later deletion may have removed the offending line again */
   if (r->classes & ((1u << 12) | (1u << 1))) expect_error = 0;
+  /* a lone CR is not a line end for the parser: the following line becomes extra tokens of this one, so declarations can vanish */
+  if (crlf == 3) expect_error = 0;
   if (expect_error && c14_last_n_errors == 0)
     v_fail (r, "limit-not-reported", "a file that exceeds a limit (instructions, variables of one class, tokens per line) parsed without any error record");
 }
